@@ -239,6 +239,13 @@ func (ctx *Context) fixStackMerge(pos []int) {
 			in[j] -= delta
 			j++
 		}
+		// Merged glyphs after the last input glyph (e.g. trailing ignored
+		// glyphs) still shorten the match window.
+		for ; i < len(pos); i++ {
+			if i > 0 {
+				delta++
+			}
+		}
 
 		// We need to decide whether or not to add the new glyphs to the input
 		// glyph sequence of this action.  The behaviour is not specified in
